@@ -66,6 +66,7 @@ def execute(case, prefix, seed):
     server_kw = {i: {"readonly_storage": True} for i, kd in enumerate(kinds) if kd == "readonly"}
     g = grid.Grid(S, nclients=2, chooser=ch, fault_kinds=tuple(case.get("fault_kinds", ())), server_kw=server_kw,
                   client_kw=dict(k=K, n=N, happy=case["happy"], max_segment_size=SEG))
+    g.sched.batch = bool(case.get("batch"))     # turn granularity, see grid.Sched.batch
     viol, obs = [], {}
     try:
         for i, kd in enumerate(kinds):
@@ -209,11 +210,14 @@ def run(tier, seed):
     faults = ["error", "error-after", "disconnect"]
     reps = rep_cases()
     plan = [(reps[:10], 1, 0), (reps[:10:3] + reps[-3:], 0, 1), (reps[1:10:5], 1, 1)] if tier == "quick" else [(reps, 2, 0), (reps, 1, 1), (reps[:10], 0, 2)]
+    # the same with every answer that is deliverable at the start of a reactor turn delivered in that turn
+    bt = lambda cs: [dict(c, batch=True) for c in cs]
+    plan += [(bt(reps[:10]), 1, 0), (bt(reps[:10:3] + reps[-3:]), 0, 1)] if tier == "quick" else [(bt(reps), 1, 0), (bt(reps), 0, 1), (bt(reps[:10]), 1, 1)]
     desc = []
     for sel, d, f in plan:
         sel = [dict(c, fault_kinds=faults if f else []) for c in sel]
         res.merge(grid.split_tasks(common.pmap, chunk, sel, (seed,), d, f))
-        desc.append("%d grids at d<=%d,f<=%d" % (len(sel), d, f))
+        desc.append("%d grids at d<=%d,f<=%d%s" % (len(sel), d, f, " (several answers per reactor turn)" if sel and sel[0].get("batch") else ""))
     cov = {
         "states": res.counts.get("executions", 0),
         "transitions": res.counts.get("transitions", 0),
